@@ -312,6 +312,17 @@ def level2(full=False):
         for a in (ops if full else ops[:12] + ops[16:24]):
             for b in (ops if full else ops[:6] + ops[16:20]):
                 out.append(("cond", c, a, b))
+    # field selection / has / index on results that are maps (also maps with a null entry), at the TOP of the expression
+    maps = [("raw", "map", '{"a": null, "b": 1}'), ("cond", var("bool"), lit("map", 0), var("map")), ("raw", "map", 'true || false ? {"a": 1} : {"a": 2}'),
+            ("raw", "map", '[{"a": 1}, {"a": null}].filter(e, true)[1]'), ("raw", "map", 'vm.a > 0 || true ? vm : {"a": null}'), var("map"), lit("map", 0)]
+    for mterm in maps:
+        for f in ("a", "b", "zz"):
+            out.append(("sel", mterm, f))
+            out.append(("has", mterm, f))
+            out.append(("bin", "==", ("sel", mterm, f), lit("null_type", 0)))
+            out.append(("bin", "+", ("sel", mterm, f), lit("int", 0)))
+            out.append(("idx", mterm, ("lit", "string", f'"{f}"')))
+            out.append(("sel", ("sel", ("raw", "map", '{"m": ' + text(mterm) + "}"), "m"), f))
     for a in ops:
         ta = text(a)
         out.append(("raw", None, f"[{ta}]"))
